@@ -157,6 +157,22 @@ def gen_ParseConsts(repo):
     if not m:
         raise TranslateError("cif_parse: the raw CIF 2.0 magic test was not found")
     magic_ws = bool(re.search(r"char_buffer\s*\[", m.group(1)))
+    followers, accepts_end = [], False
+    if magic_ws:
+        cond = m.group(1)
+        for lit in re.findall(r"char_buffer\s*\[\s*MAGIC_LENGTH\s*\+\s*MAGIC_EXTRA\s*\]\s*==\s*(0[xX][0-9a-fA-F]+|\d+|'(?:\\.|[^'])')", cond):
+            if lit.startswith("'"):
+                body = lit[1:-1]
+                val = {"\\n": 10, "\\r": 13, "\\t": 9, " ": 32}.get(body)
+                if val is None:
+                    raise TranslateError("cif_parse: cannot evaluate the character literal %s in the magic test" % lit)
+            else:
+                val = int(lit, 0)
+            followers.append(val)
+        accepts_end = bool(re.search(r"count\s*==\s*\(?\s*MAGIC_LENGTH\s*\+\s*MAGIC_EXTRA", cond))
+        n_tests = len(re.findall(r"char_buffer\s*\[", cond))
+        if n_tests != len(followers):
+            raise TranslateError("cif_parse: %d tests of the byte after the magic code, %d understood" % (n_tests, len(followers)))
 
     L = ["/-", "  GENERATED by tools/translate_consts.py from /repo's working tree — do not edit.",
          "  Source: src/cif.h, src/parser.c, src/ciffile.c, src/internal/value.h", "-/",
@@ -179,6 +195,9 @@ def gen_ParseConsts(repo):
     L.append("def fallbackUsesNamedDefault : Bool := %s" % ("true" if fallback_named else "false"))
     L.append("/-- the raw CIF 2.0 magic test of cif_parse() also inspects the byte after the magic code (repair of finding G3) -/")
     L.append("def rawMagicChecksFollowingByte : Bool := %s" % ("true" if magic_ws else "false"))
+    L.append("/-- … the values it accepts for that byte, and whether it accepts the end of the input there -/")
+    L.append("def rawMagicFollowers : List Nat := [%s]" % ", ".join(map(str, followers)))
+    L.append("def rawMagicAcceptsEnd : Bool := %s" % ("true" if accepts_end else "false"))
     L.append("")
     L.append("/-- comparisons of `options->prefer_cif2` in cif_parse(), in textual order (operator, literal) -/")
     L.append("def preferTests : List (List Nat × Nat) := [%s]" % ", ".join(
